@@ -246,11 +246,12 @@ def _invoke(mod, mode, batch):
     mod.main()
 
 
-def _recover(ctx, mod, fs, mode, batch, log):
-    """operator protocol after an interruption: restart; remove the directory the script names; restart"""
+def _recover(ctx, fresh, fs, mode, batch, log):
+    """operator protocol after an interruption: restart; remove the directory the script names; restart.  Every restart
+    is a new process: the script is loaded anew (nothing kept in module-level state survives an interruption)"""
     for _ in range(12):
         try:
-            _invoke(mod, mode, batch)
+            _invoke(fresh(), mode, batch)
             return True
         except RuntimeError as e:
             m = re.search(r"continue simulation: (\S+)", str(e))
@@ -376,7 +377,7 @@ def h_resume(ctx, cfg):
             fs.ticks = 0
             fs.armed = True
             try:
-                ok = _recover(ctx, mod, fs, mode, batch, log)
+                ok = _recover(ctx, lambda: _load_script(ctx, fs, pl), fs, mode, batch, log)
                 ctx.assume(False)
             except Crash as cr:
                 log.append("interrupted again at: " + str(cr))
@@ -384,7 +385,7 @@ def h_resume(ctx, cfg):
         state["phase"] = 3
         n_before = len(pl.launches)
         removed_before = len(fs.removed_dirs)
-        ok = _recover(ctx, mod, fs, mode, batch, log)
+        ok = _recover(ctx, lambda: _load_script(ctx, fs, pl), fs, mode, batch, log)
         ctx.prove(ok, "the script can be restarted after the interruption (removing only directories it names)",
                   key="%s: restart does not terminate" % mode)
         det = lambda: "; ".join(log)[:400]
